@@ -40,7 +40,8 @@ PROP_POOL = [b"href", b"src", b"title", b"size", b"checked", b"disabled", b"widt
 ENT_POOL = [b"nbsp", b"copy", b"or", b"Amp", b"x1", b"apos", b"", b"a;b", b"LT", b"a b", b"a<b", b"x'y", b"#x"]
 REGEXES = [b".*", b"[a-z]+", b"(http|https|ftp)://.*", b"[0-9]+(px|em|%)?", b"[a-zA-Z0-9 _.-]*", b"[^<>\"']*", b"(left|right|center)"]
 SCHEMES = [b"(http|https|ftp|mailto|news|nntp)", b"(http|https)", b"[a-z]+"]
-ENCODINGS = [b"UTF-8", b"utf8", b"ISO-8859-1", b"iso-8859-8", b"ISO-8859-6", b"windows-1255", b"cp1251", b"US-ASCII", b"koi8-r", b"latin1", b"windows-1252"]
+ENCODINGS = [b"UTF-8", b"utf8", b"ISO-8859-1", b"iso-8859-8", b"ISO-8859-6", b"windows-1255", b"cp1251", b"US-ASCII", b"koi8-r", b"latin1", b"windows-1252",
+             b"windows-1258", b"cp1258", b"Windows-1253", b"iso8859-7", b"ISO-8859-11", b"windows-1250", b"cp1257", b"ISO-8859-3", b"WINDOWS-1256", b"ISO_8859-15"]
 UTF8_BOUNDARY = [b"\xf4\x8f\xbf\xbf", b"\xf4\x90\x80\x80", b"\xf4\xbf\xbf\xbf", b"\xed\x9f\xbf", b"\xed\xa0\x80", b"\xed\xbf\xbf", b"\xee\x80\x80", b"\xe0\x9f\xbf", b"\xe0\xa0\x80",
                  b"\xc1\xbf", b"\xc2\x80", b"\xc0\x80", b"\xdf\xbf", b"\xf0\x8f\xbf\xbf", b"\xf0\x90\x80\x80", b"\xf5\x80\x80\x80", b"\xf7\xbf\xbf\xbf", b"\xf8\x88\x80\x80\x80",
                  b"\xf4\x8f\xbf", b"\xf4\x8f", b"\xf4", b"\xe2\x82", b"\xe2", b"\xc2", b"\xf0\x90\x80", b"\x80", b"\xbf", b"\xef\xbf\xbd", b"\xef\xbf\xbf", b"\xc2\xa0", b"\xe2\x82\xac\x80",
@@ -120,6 +121,9 @@ class RuleSet:
 
 WORDS = [b"hello", b"world", b"x", b"to be", b"or not", b" ", b"\n", b"a;b", b"-", b"'", b"\"", b"=", b"/", b"\xc3\xa9", b"\t", b"!", b"?", b"#", b";"]
 NOISE_WORDS = [b"1 < 2", b"a > b", b"AT&T", b"--", b"\x00", b"\xff", b"\x0c", b"<", b">", b"&", b"<<", b"&&", b"<a", b"a>"]
+BIG_CODEPOINTS = [2 ** 31 - 1, 2 ** 31, 2 ** 31 + 65, 2 ** 32 - 1, 2 ** 32, 2 ** 32 + 9, 2 ** 32 + 60, 2 ** 32 + 65, 2 ** 32 + 0x263A, 2 ** 32 + 0x10FFFF, 2 ** 32 + 0x110000,
+                  2 ** 33 + 65, 2 ** 40 + 38, 2 ** 48 + 65, 0x1000000000000041, 2 ** 63 - 1, 2 ** 63, 2 ** 63 + 65, 2 ** 64 - 1, 2 ** 64, 2 ** 64 + 65, 2 ** 64 + 2 ** 32 + 65,
+                  0xFFFFFFFF0000263A, 10 ** 19, 10 ** 19 + 65, 10 ** 20 - 1, 16 ** 19 + 65]
 CODEPOINTS = [0, 8, 9, 0xA, 0xB, 0xD, 0x1F, 0x20, 0x41, 0x7E, 0x7F, 0x9F, 0xA0, 0xD7FF, 0xD800, 0xDBFF, 0xDC00, 0xDFFF, 0xFFFD, 0xFFFE, 0xFFFF,
               0x10000, 0x10FFFF, 0x110000, 2 ** 31, 2 ** 63 - 1, 2 ** 63, 2 ** 64 + 65, 10 ** 30]
 GOOD_CODEPOINTS = [9, 0xA, 0xD, 0x20, 0x41, 0x7E, 0xA0, 0xD7FF, 0xDC00, 0xFFFD, 0x10000, 0x10FFFF]
@@ -255,13 +259,15 @@ class G:
             names = [b"lt", b"gt", b"amp", b"quot"] + [e for e in rs.entities if e and b";" not in e]
             if rs.numeric and rng.random() < 0.4:
                 cp = rng.choice(GOOD_CODEPOINTS)
-                return rng.choice((b"&#%d;", b"&#x%x;", b"&#X%X;", b"&#x%X;")) % cp
+                return rng.choice((b"&#%d;", b"&#x%x;", b"&#X%X;", b"&#x%X;", b"&#000%d;", b"&#x0000%x;")) % cp
             return b"&" + rng.choice(names) + b";"
         r = rng.random()
         if r < 0.3:
             return b"&" + rng.choice(ENT_POOL + [b"foo", b"AMP", b"a b", b"a<b", b"lt\x00"]) + b";"
         if r < 0.8:
-            cp = rng.choice(CODEPOINTS) if rng.random() < 0.7 else rng.randrange(0x120000)
+            rr = rng.random()
+            cp = rng.choice(CODEPOINTS) if rr < 0.5 else rng.choice(BIG_CODEPOINTS) if rr < 0.7 else rng.randrange(0x120000) if rr < 0.9 \
+                else int("".join(rng.choice("0123456789") for _ in range(rng.randrange(1, 21))))
             f = rng.random()
             if f < 0.4:
                 return b"&#%d;" % cp
@@ -365,6 +371,12 @@ def gen_input(rs, rng):
     return s
 
 
+# windows-1254 / cp1254 are not registered in encoding.cpp's validators_set (windows_1254_valid exists but is unused): they take
+# the iconv path, which the model does not cover
+SINGLE_BYTE_NAMES = ([b"latin1"] + [b"ISO-8859-%d" % k for k in (1, 2, 3, 4, 5, 6, 7, 8, 9, 10, 11, 13, 14, 15, 16)] + [b"windows-125%d" % k for k in (0, 1, 2, 3, 5, 6, 7, 8)] +
+                     [b"cp125%d" % k for k in (0, 1, 2, 3, 5, 6, 7, 8)] + [b"koi8-r", b"KOI8-U", b"US-ASCII", b"ascii"])
+
+
 def is_utf8_name(enc):
     return bytes(c for c in enc.lower() if chr(c).isalnum()) == b"utf8"
 
@@ -384,6 +396,18 @@ def systematic_cases():
                         bd = body[:pos] + mk + body[pos:]
                         for pre, post in ((b"a", b"b"), (b"", b""), (b"<b>", b"</b>")):
                             cases.append("C %s %s" % (f, hexs(pre + b"<!--" + bd + b"-->" + post)))
+    # (c) numeric character references: 1..20 digits, values around 2^31 / 2^32 / 2^32+legal / 2^63 / 2^64, hex and decimal, leading zeros
+    for num in (1, 0):
+        f = "10%d - %s - -" % (num, tags)
+        vals = sorted(set(CODEPOINTS + BIG_CODEPOINTS + [10 ** k for k in range(0, 21)] + [10 ** k - 1 for k in range(1, 21)] + [16 ** k + 65 for k in range(1, 20)]))
+        for v in vals:
+            for fmt in (b"&#%d;", b"&#x%x;", b"&#X%X;", b"&#0%d;", b"&#x000%x;"):
+                cases.append("C %s %s" % (f, hexs(b"a" + fmt % v + b"b")))
+    # (d) every byte under every single-byte encoding name the library knows (primary names and aliases)
+    for name in SINGLE_BYTE_NAMES:
+        f = "100:%s:0 - %s - -" % (hx(name), tags)
+        for b in range(256):
+            cases.append("C %s %s" % (f, hexs(b"x" + bytes([b]) + b"y")))
     for enc in (b"UTF-8", b"utf8"):
         for xh in (1, 0):
             f = "%d11:%s:0 - %s - -" % (xh, hx(enc), tags)
@@ -583,6 +607,32 @@ def run_all(c, hbin, model, cases, label):
         wl.append((k, "filter(x, remove_invalid) is not well-formed UTF-8 (RFC 3629)", frm))
         if fesc != frm:
             wl.append((k, "filter(x, escape_invalid) is not well-formed UTF-8 (RFC 3629)", fesc))
+    # declared single-byte encoding: the same, against the independent code page tables of Spec.lean (op B); pages the
+    # tables do not cover answer "unknown" and are counted
+    bl = []
+    for k in range(n):
+        fl = cases[k].split()[1].split(":")
+        if len(fl) != 3 or not fl[1] or is_utf8_name(unhex(fl[1])):
+            continue
+        mm = FIELD_RE.match(impl[k])
+        if not mm:
+            continue
+        v, rm, esc, frm, fesc, vrm, vesc = mm.groups()
+        if v == "1":
+            bl.append((k, "validate accepted a byte that is unassigned / a control in the declared code page (independent table)", fl[1], cases[k].split()[6]))
+        bl.append((k, "filter(x, remove_invalid) contains a byte that is unassigned / a control in the declared code page", fl[1], frm))
+        if fesc != frm:
+            bl.append((k, "filter(x, escape_invalid) contains a byte that is unassigned / a control in the declared code page", fl[1], fesc))
+    if bl:
+        rc_b, out_b, err_b = c.run_lines(model, ["B %s %s" % (nm, h) for _, _, nm, h in bl])
+        unk = 0
+        for (k, what, nm, h), o in zip(bl, out_b + ["<no output>"] * (len(bl) - len(out_b))):
+            if o == "unknown":
+                unk += 1
+            elif o != "1":
+                bad.append((k, what))
+        c.extra_cov["single_byte_judged"] = c.extra_cov.get("single_byte_judged", 0) + len(bl) - unk
+        c.extra_cov["single_byte_page_not_in_spec_tables"] = c.extra_cov.get("single_byte_page_not_in_spec_tables", 0) + unk
     if wl:
         rc_w, out_w, err_w = c.run_lines(model, ["W " + h for _, _, h in wl])
         for (k, what, h), o in zip(wl, out_w + ["<no output>"] * (len(wl) - len(out_w))):
